@@ -443,8 +443,6 @@ def inline_local_closures(fn, counter):
                     continue
             if not uses or len(uses) != len(callsites):
                 continue
-            if any(y.get("k") == "ret" for y in _walk(init["body"])):
-                continue
             helper = {"params": init["params"], "body": init["body"], "path": "closure:" + str(s["pat"].get("name"))}
             ok = True
 
@@ -1153,6 +1151,27 @@ def rev_iter_next_to_pop(fn):
                 if y.get("k") == "bind" and y.get("hid") == v["hid"]:
                     y["mode"] = "BindingMode(No, Mut)"
             n += 1
+    return n
+
+
+def repeat_take_collect(fn):
+    """D48  `std::iter::repeat(x).take(n).collect()`  ->  `vec![x; n]`  (n clones of x either way)"""
+    n = 0
+    for x in _walk(fn.get("body")):
+        if x.get("k") != "mcall" or x.get("name") != "collect" or x["args"]:
+            continue
+        tk = _unblk(x["recv"])
+        if tk is None or tk.get("k") != "mcall" or tk.get("name") != "take" or len(tk["args"]) != 1:
+            continue
+        rp = _unblk(tk["recv"])
+        if rp is None or rp.get("k") != "call" or not str(rp.get("callee", "")).endswith("iter::repeat") or len(rp["args"]) != 1:
+            continue
+        line = x.get("line")
+        keep = {k_: x[k_] for k_ in ("t", "ta", "id", "line") if k_ in x}
+        elem, cnt = rp["args"][0], tk["args"][0]
+        x.clear()
+        x.update({"k": "call", "callee": "std::vec::from_elem", "f": {"k": "path", "def": "std::vec::from_elem", "line": line}, "args": [elem, cnt], "from_repeat": True, **keep})
+        n += 1
     return n
 
 
@@ -3894,6 +3913,49 @@ def let_else_over_option_block(fn):
         if e is not None and e.get("k") in ("continue", "break", "ret") and e.get("v") is None:
             return e
         return None
+    # `for .. { ..; if let Some(P) = 'l: { s..; break 'l None; ..; tail } { T } }` (the test is the last statement of the loop body): an early `None`
+    # skips T and with it the rest of the iteration, i.e. it is `continue`
+    for lp in list(_walk(fn.get("body"))):
+        if lp.get("k") != "for" or not isinstance(lp.get("body"), dict) or lp["body"].get("k") != "blk":
+            continue
+        bb = lp["body"]["b"]
+        items = list(bb["stmts"]) + ([bb["tail"]] if bb.get("tail") is not None else [])
+        if not items:
+            continue
+        st = items[-1]
+        if not (isinstance(st, dict) and st.get("k") == "if" and st.get("el") is None and _unblk(st["c"]) is not None and _unblk(st["c"]).get("k") == "letx"):
+            continue
+        cx = _unblk(st["c"])
+        if some_pat(cx["pat"]) is None:
+            continue
+        init = cx["init"]
+        while init.get("k") == "blk" and init.get("lbl") is None and not init["b"]["stmts"] and init["b"].get("tail") is not None:
+            init = init["b"]["tail"]
+        if not (init.get("k") == "blk" and init.get("lbl") is not None and init["b"].get("tail") is not None):
+            continue
+        lbl = init["lbl"]
+        if any(y.get("k") == "break" and y.get("label") == lbl and not is_none(y.get("v")) for y in _walk(init["b"])) or any(z.get("k") in ("for", "loop") for z in _walk(init["b"])):
+            continue
+        div = {"k": "continue", "label": lp.get("loop_id"), "line": st.get("line")}
+
+        def fix3(x):
+            if isinstance(x, list):
+                return [fix3(v) for v in x]
+            if not isinstance(x, dict):
+                return x
+            if x.get("k") == "break" and x.get("label") == lbl:
+                return copy.deepcopy(div)
+            for k_, v in list(x.items()):
+                if isinstance(v, (dict, list)):
+                    x[k_] = fix3(v)
+            return x
+        pre = fix3(init["b"]["stmts"])
+        cx["init"] = fix3(init["b"]["tail"])
+        if bb.get("tail") is st:
+            bb["stmts"] = bb["stmts"] + pre
+        else:
+            bb["stmts"] = bb["stmts"][:-1] + pre + [st]
+        n += 1
     for blkn in list(_walk(fn.get("body"))):
         if blkn.get("k") != "block":
             continue
@@ -4107,6 +4169,7 @@ def run(facts):
         counts["match_guards"] = counts.get("match_guards", 0) + match_guards(fn)
         counts["bool_matches"] = counts.get("bool_matches", 0) + bool_match_to_if(fn)
         counts["loop_break_values"] = counts.get("loop_break_values", 0) + loop_break_value(fn)
+        counts["repeat_take"] = counts.get("repeat_take", 0) + repeat_take_collect(fn)
         counts["rev_iter_pop"] = counts.get("rev_iter_pop", 0) + rev_iter_next_to_pop(fn)
         counts["ufcs_calls"] = counts.get("ufcs_calls", 0) + ufcs_calls(fn, facts["fns"])
         counts["tuple_if_let"] = counts.get("tuple_if_let", 0) + tuple_if_let(fn)
